@@ -138,6 +138,7 @@ def frame_obligations():
     from pyvc.registry import REG
     out = []
     for f, q in FUNCTIONS:
+        if not q.endswith('.write'): continue
         c = REG.get(f, q)
         ok = c is not None and len(c.modifies) == 1 and not c.trusted and not c.external
         out.append(B.static_obligation('C12/%s::%s/frame-is-the-document-only' % (f.split('/')[-1], q), ok, q, f, 'modifies=%r' % (getattr(c, 'modifies', None),)))
